@@ -179,6 +179,67 @@ de_harness! {
         std::mem::forget(de);
     }
 }
+// The kernel shared by every length-prefixed value (text, blob, byte buffers, skipped blobs): read the LEB128
+// length, charge it, borrow that many bytes. Driven as a unit on an arbitrary buffer and start offset so that
+// hostile prefixes (padded, 2^63.., > 2^64) are decided in seconds instead of through the whole text visitor.
+macro_rules! len_read_h {
+    ($name:ident, $n:expr, $unw:expr) => {
+        de_harness! {
+            #[kani::unwind($unw)]
+            fn $name() {
+                const N: usize = $n;
+                let buf: [u8; N] = kani::any();
+                let start: usize = kani::any();
+                kani::assume(start <= N);
+                let cfg = cfg_any();
+                let q0 = cfg.decoding_quota;
+                let mut de = mk_de(&buf[..], ty(TypeInner::Text), ty(TypeInner::Text), cfg);
+                de.input.set_position(start as u64);
+                let r: Result<&[u8]> = (|| {
+                    let len = de.read_len()?;
+                    de.add_cost(len.saturating_add(1))?;
+                    de.borrow_bytes(len)
+                })();
+                let pos = de.input.position() as usize;
+                std::assert!(pos <= N, "cursor beyond the input");
+                let mut tail = [0u8; N];
+                let mut i = 0;
+                while i < N {
+                    if start + i < N {
+                        tail[i] = buf[start + i];
+                    }
+                    i += 1;
+                }
+                match ref_leb_u128(&tail, N - start) {
+                    Leb::Val { v, end } => {
+                        let room = (N - start - end) as u128;
+                        match &r {
+                            Ok(s) => {
+                                std::assert!(v <= room, "length beyond the remaining input accepted");
+                                std::assert!(s.len() as u128 == v, "borrowed slice length differs from the prefix");
+                                std::assert!(pos == start + end + s.len(), "consumption differs from prefix + payload");
+                                std::assert!(s.as_ptr() == buf[start + end..].as_ptr(), "borrowed slice starts elsewhere");
+                                if let (Some(a), Some(b)) = (q0, de.config.decoding_quota) {
+                                    std::assert!(a > b && a - b >= s.len(), "payload bytes not charged");
+                                }
+                            }
+                            // completeness for prefixes within the documented 63-bit / 9-byte reader
+                            Err(_) => std::assert!(v > room || end > 9 || q0.is_some(), "length-prefixed value that fits rejected"),
+                        }
+                    }
+                    _ => std::assert!(r.is_err(), "unterminated / oversized length prefix accepted"),
+                }
+                kani::cover!(matches!(&r, Ok(s) if s.len() == 2), "two bytes borrowed");
+                kani::cover!(r.is_err() && start == 0 && buf[0] == 0xff && buf[8] == 0xff && buf[9] == 0x01, "length 2^63.. rejected");
+                std::mem::forget(r);
+                std::mem::forget(de);
+            }
+        }
+    };
+}
+len_read_h!(c06_len_prefixed_read_eq12, 12, 14);
+len_read_h!(c06_len_prefixed_read_eq16, 16, 18);
+
 de_harness! {
     #[kani::unwind(12)]
     fn c06_vec_null_bomb() {
